@@ -1,7 +1,7 @@
 (* Properties.v — the property theorems, and nothing else.  Each is closed by [exact] of a lemma
    proved in the Proofs* files and followed by Print Assumptions. *)
 From Coq Require Import Permutation.
-From Godi Require Import Base GDfs GKahn GKahnComplete GraphSpec Conc Web Model Check ProofsGraph ProofsConc ProofsWeb ProofsRegistry ProofsRuntime ProofsClosed ProofsTerm ProofsWf ProofsSingle ProofsOutputs ProofsFresh ProofsGen ProofsFrame ProofsFrozen ProofsOnce.
+From Godi Require Import Base GDfs GKahn GKahnComplete GraphSpec Conc Web Model Check ProofsGraph ProofsConc ProofsWeb ProofsRegistry ProofsRuntime ProofsClosed ProofsTerm ProofsWf ProofsSingle ProofsOutputs ProofsFresh ProofsGen ProofsFrame ProofsFrozen ProofsOnce ProofsConserve ProofsOnceWorld ProofsCloses.
 
 (* ---------------------------------------------------------------- C01 *)
 Theorem C01_resolving_a_singleton_is_a_table_read : forall fuel rs h d,
@@ -235,11 +235,49 @@ Print Assumptions C10_close_closes_each_exactly_once.
    instance twice, and every instance they hold was made by an invocation that has been counted - an invariant of
    every resolution, for every registration set without disposable instance values (those are not created by the
    container).  A Close then closes exactly the entries of the lists it takes (C10_close_closes_each_exactly_once). *)
-Theorem C10_every_constructed_instance_is_owned_exactly_once : forall c,
+Theorem C10_every_constructed_instance_is_owned_exactly_once : forall c F,
   (forall d, In d c -> desc_ok d) ->
-  forall fuel rs h d, In d c -> Once c rs -> Once c (fst (resolve_d fuel rs h d)).
+  forall fuel rs h d, In d c -> Once c F rs -> Once c F (fst (resolve_d fuel rs h d)).
 Proof. exact resolution_lists_each_instance_once. Qed.
 Print Assumptions C10_every_constructed_instance_is_owned_exactly_once.
+
+(* a Close closes what was owned and nothing else: the instances closed by a scope's Close (with all its descendants),
+   together with the instances still listed afterwards, are exactly - as a multiset - the instances listed before *)
+Theorem C10_closing_moves_instances_from_the_lists_to_the_events : forall fuel ord p h,
+  conserves p (close_scope fuel ord p h).
+Proof. exact close_scope_conserves. Qed.
+Print Assumptions C10_closing_moves_instances_from_the_lists_to_the_events.
+
+Theorem C10_provider_close_moves_instances_from_the_lists_to_the_events : forall ord p,
+  conserves p (close_provider ord p).
+Proof. exact close_provider_conserves. Qed.
+Print Assumptions C10_provider_close_moves_instances_from_the_lists_to_the_events.
+
+(* ... and everything that was owned: a scope's Close closes every instance the scope owns, the provider's Close
+   every singleton it owns ("when the scope that created them is closed ... singletons when the provider is closed") *)
+Theorem C10_close_closes_everything_the_scope_owns : forall fuel ord p h i,
+  h < length (p_scopes p) -> sc_open (get_scope p h) = true -> In i (sc_disp (get_scope p h)) ->
+  In i (closed_of (snd (fst (close_scope (S fuel) ord p h)))).
+Proof. exact close_closes_everything_the_scope_owns. Qed.
+Print Assumptions C10_close_closes_everything_the_scope_owns.
+
+Theorem C10_provider_close_closes_every_singleton_it_owns : forall ord p i,
+  p_open p = true -> In i (p_sdisp p) -> In i (closed_of (snd (fst (close_provider ord p)))).
+Proof. exact provider_close_closes_every_singleton_it_owns. Qed.
+Print Assumptions C10_provider_close_closes_every_singleton_it_owns.
+
+(* the statement itself, over every history of the sequential model: whatever is registered (no disposable instance
+   values: those are not created by the container), built, resolved, created, closed or cancelled, in whatever order,
+   with whatever faults - no instance is closed twice, and nothing that is still owned has been closed *)
+Theorem C10_no_instance_is_closed_twice_over_any_history : forall ops, Forall op_inst_ok ops ->
+  NoDup (closed_in_trace (snd (run_from init_world ops))).
+Proof. exact no_instance_is_closed_twice. Qed.
+Print Assumptions C10_no_instance_is_closed_twice_over_any_history.
+
+Theorem C10_nothing_still_owned_has_been_closed : forall ops i, Forall op_inst_ok ops ->
+  In i (all_tracked (w_provs (fst (run_from init_world ops)))) -> ~ In i (closed_in_trace (snd (run_from init_world ops))).
+Proof. exact nothing_owned_is_already_closed. Qed.
+Print Assumptions C10_nothing_still_owned_has_been_closed.
 
 (* "and not before": a resolution closes nothing - every event it logs is a constructor invocation (or the
    notice of a cancelled Build) - and the scope's disposal list only grows: what is owned stays owned until a Close *)
